@@ -1689,9 +1689,14 @@ func genScript(r *hx.Rng) *script {
 func main() {
 	child := flag.String("fstore-child", "", "internal: run the file provider Store on this path under RLIMIT_FSIZE")
 	cut := flag.Uint64("fstore-cut", 0, "internal: RLIMIT_FSIZE for -fstore-child")
+	sfc := flag.String("sf-child", "", "internal: run one coordinator process of an sfault case (spec)")
 	f := hx.ParseFlags()
 	if *child != "" {
 		fstoreChild(*child, *cut, 8)
+		return
+	}
+	if *sfc != "" {
+		sfChild(decodeSfSpec(*sfc))
 		return
 	}
 	slog.SetDefault(slog.New(gateHandler{}))
@@ -1714,6 +1719,7 @@ func main() {
 		cut  uint64
 		full bool
 		t0   int64
+		sf   sfJob
 	}
 	var jobs []job
 	addLine := func(line string) {
@@ -1732,6 +1738,15 @@ func main() {
 		case "fstore":
 			c, _ := strconv.ParseUint(t[2], 10, 64)
 			jobs = append(jobs, job{kind: "fstore", cut: c})
+		case "sfault":
+			if len(t) >= 8 {
+				j := sfJob{mode: t[2], exitAt: t[7]}
+				j.t0, _ = strconv.ParseInt(t[3], 10, 64)
+				j.failFrom, _ = strconv.Atoi(t[4])
+				j.failCount, _ = strconv.Atoi(t[5])
+				j.getFail, _ = strconv.Atoi(t[6])
+				jobs = append(jobs, job{kind: "sfault", sf: j})
+			}
 		case "cfgrace":
 			if len(t) >= 4 {
 				t0, _ := strconv.ParseInt(t[3], 10, 64)
@@ -1768,6 +1783,9 @@ func main() {
 		for i := 0; i < 2+f.N/60; i++ {
 			jobs = append(jobs, job{kind: "cfgrace", full: r.Bool(), t0: int64(r.Intn(9))})
 		}
+		for i := 0; i < 6+f.N/40; i++ {
+			jobs = append(jobs, job{kind: "sfault", sf: genSfJob(r)})
+		}
 	}
 
 	// election cases run concurrently (each is dominated by the 100 ms grace timer); results are recorded in job order
@@ -1780,7 +1798,39 @@ func main() {
 	results := make([]*result, len(jobs))
 	sem := make(chan struct{}, 16)
 	var wg sync.WaitGroup
+	// sfault cases first, on their own: they fork child processes, and nothing else may have a file-provider Store in
+	// flight meanwhile (see prepSfault)
+	sfResults := make([]*sfResult, len(jobs))
+	{
+		type prep struct {
+			dir, path string
+			ok        bool
+		}
+		preps := map[int]prep{}
+		for i, j := range jobs {
+			if j.kind == "sfault" {
+				d, p, ok := prepSfault(tmp, i, j.sf)
+				preps[i] = prep{d, p, ok}
+			}
+		}
+		var swg sync.WaitGroup
+		for i, j := range jobs {
+			if j.kind != "sfault" {
+				continue
+			}
+			swg.Add(1)
+			go func(i int, j job) {
+				defer swg.Done()
+				r := runSfault(preps[i].dir, preps[i].path, preps[i].ok, j.sf)
+				sfResults[i] = &r
+			}(i, j)
+		}
+		swg.Wait()
+	}
 	for i, j := range jobs {
+		if j.kind == "sfault" {
+			continue
+		}
 		if j.kind == "cfgrace" {
 			wg.Add(1)
 			sem <- struct{}{}
@@ -1841,6 +1891,18 @@ func main() {
 			runSel(o, j.resp, j.ord)
 		case "fstore":
 			runFstore(o, tmp, i, j.cut)
+		case "sfault":
+			res := sfResults[i]
+			in := j.sf.String()
+			o.Case("sfault", in, res.summary, in)
+			for _, v := range res.viols {
+				o.Violation(v[0], v[1])
+			}
+			o.Count("sfault:mode=" + j.sf.mode)
+			o.Count(fmt.Sprintf("sfault:failed-stores=%d", j.sf.failCount))
+			for k, n := range res.stats {
+				o.CountN("sfault:"+k, n)
+			}
 		case "cfgrace":
 			res := results[i]
 			if res.skipped {
